@@ -281,10 +281,17 @@ def c06_case(case):
                         elif tool == "semgrep": pe["ruleId"] = "foreign.rule.id"
                         else: pe["title"] = "foreign.rule.id"
                         placed.append((kind, pe))
-            doc = build_doc(tool, seed["results"], placed)
-            rf = root / f"res-{uuid.uuid4().hex}.json"
-            rf.write_text(json.dumps(doc))
-            r = e2e.run(proj, ["--codemod-include", cid, seed["flag"], str(rf)])
+            if case.get("split") and len(placed) >= 2 and tool in ("sonar", "defectdojo"):   # two SARIF files of one tool are refused by the CLI
+                # the same findings handed over in two result files (interleaved), as several exports of one tool would be
+                parts = [placed[0::2], placed[1::2]]
+            else:
+                parts = [placed]
+            rfs = []
+            for part in parts:
+                rf = root / f"res-{uuid.uuid4().hex}.json"
+                rf.write_text(json.dumps(build_doc(tool, seed["results"], part)))
+                rfs.append(str(rf))
+            r = e2e.run(proj, ["--codemod-include", cid, seed["flag"], ",".join(rfs)])
             after = (proj / "pkg/code.py").read_text()
             rew = sites.rewritten_sites(lay, after)
             other_changed = (proj / "pkg/other.py").read_text() != lay.text
@@ -323,7 +330,7 @@ def search(ctx):
     cases = []
     for it in items:
         for n, indent in ([(3, 0), (2, 4)] if ctx.thorough else [(rng.choice([2, 3]), rng.choice([0, 4]))]):
-            cases.append({"item": it, "n": n, "indent": indent, "seed": rng.randint(0, 10**9), "decoys": True})
+            cases.append({"item": it, "n": n, "indent": indent, "seed": rng.randint(0, 10**9), "decoys": True, "split": rng.random() < 0.5})
     used = set()
     for c, r in zip(cases, impl.pool_map(c06_case, cases)):
         if r[0] != "ok":
